@@ -54,4 +54,16 @@ Decr(n)      == [k |-> "decr", n |-> n, wc |-> W0]
 Cycle(group, items, key) == [k |-> "cycle", group |-> group, items |-> items, key |-> key, wc |-> W0]
 With(args, b) == [k |-> "with", args |-> args, body |-> b, wc |-> W0, ewc |-> W0]
 WArg(n, e)   == [n |-> n, e |-> e]
+Include(name, mode, var, alias, kwargs) ==
+  [k |-> "include", name |-> name, mode |-> mode, var |-> var, alias |-> alias, kwargs |-> kwargs, wc |-> W0]
+RenderT(name, mode, var, alias, kwargs) ==
+  [k |-> "render", name |-> name, mode |-> mode, var |-> var, alias |-> alias, kwargs |-> kwargs, wc |-> W0]
+Param(n)        == [n |-> n, has |-> FALSE, e |-> [k |-> "nil"]]
+ParamD(n, e)    == [n |-> n, has |-> TRUE, e |-> e]
+Macro(n, params, b) == [k |-> "macro", n |-> n, params |-> params, body |-> b, wc |-> W0, ewc |-> W0]
+Call(n, args, kwargs) == [k |-> "call", n |-> n, args |-> args, kwargs |-> kwargs, wc |-> W0]
+
+\* configuration record (defaults of Environment)
+Cfg(trim, suppress, ae, undef) ==
+  [trim |-> trim, suppress |-> suppress, autoescape |-> ae, undef |-> undef, depthlimit |-> 30]
 =============================================================================
